@@ -3,7 +3,8 @@
 
 Copy /repo/src and put std's synchronisation primitives behind the simulator's seam at the
 SOURCE level: std::sync::atomic, std::sync::{Mutex, RwLock, Condvar, Barrier, Once, mpsc},
-and std::thread become shuttle's (thread_local! stays std's, see below). Every access to such a primitive is then a
+and std::thread become shuttle's (thread_local! stays std's, see below), std::time::Instant
+becomes the simulated clock simctx::time::Instant. Every access to such a primitive is then a
 scheduling point the simulator owns, wherever in the crate it is (hook H1 covers only the three
 planner files and only their existing imports). Nothing else is touched; the copy is rebuilt from
 the current working tree on every check.
@@ -50,6 +51,16 @@ for root, _, files in ([] if plain else os.walk(out)):
             continue
         s = re.sub(r'(?m)^(\s*)use std::sync::\{([^;]*)\};', split_group, s)
         s = re.sub(r'\bstd::sync::(atomic|Mutex|MutexGuard|RwLock|RwLockReadGuard|RwLockWriteGuard|Condvar|Barrier|Once\b|mpsc)', r'shuttle::sync::\1', s)
+        # the clock seam: Instant becomes the simulated clock (Duration stays std's)
+        def split_time(m):
+            indent, items = m.group(1), [x.strip() for x in m.group(2).split(',') if x.strip()]
+            st = [x for x in items if x != 'Instant']
+            lines = []
+            if st: lines.append(f"{indent}use std::time::{{{', '.join(st)}}};")
+            if 'Instant' in items: lines.append(f"{indent}use simctx::time::Instant;")
+            return '\n'.join(lines)
+        s = re.sub(r'(?m)^(\s*)use std::time::\{([^;]*)\};', split_time, s)
+        s = re.sub(r'\bstd::time::Instant\b', 'simctx::time::Instant', s)
         s = re.sub(r'\bstd::thread::(spawn|scope|sleep|yield_now|current|park|JoinHandle|Builder|ThreadId)\b', r'shuttle::thread::\1', s)
         s = re.sub(r'(?m)^(\s*)use std::thread;', r'\1use shuttle::thread;', s)
         # thread_local! is deliberately NOT rewritten: all simulated tasks of a shard run on one OS
